@@ -1,4 +1,5 @@
 import Ach.Model.Validate
+import Ach.Generated.Topics
 /-!
 # C03 — files that pass validation satisfy the NACHA control arithmetic
 
@@ -125,5 +126,8 @@ example : batchValidate {} {
                 ⟨32, "99999999".toList, "2".toList, 250, "123456780000002".toList, 0, true⟩],
     control := ⟨220, 2, 199999998, 0, 350, "1234567890".toList, "12345678".toList, 1⟩,
     extraOK := true } = true := by decide
+
+/-- F: the functions `Ach.Model.Validate` mirrors by hand have the bodies the model was written against -/
+theorem validate_functions_unchanged : hashes_validate = [("File.ValidateWith", 10445232728897984769), ("File.Validate", 17213404748645969548), ("File.isEntryAddendaCount", 12696631380225462658), ("File.isFileAmount", 3480241912098899524), ("File.isEntryHash", 13734886812924259799), ("File.calculateEntryHash", 3784837326344583080), ("File.isSequenceAscending", 15571422516586788164), ("Batch.verify", 9460724674896680126), ("Batch.isBatchEntryCount", 13106519829678733205), ("Batch.isBatchAmount", 16505843045935765689), ("Batch.calculateBatchAmounts", 11949208757700908045), ("Batch.isSequenceAscending", 8180904180479630633), ("Batch.isEntryHash", 17906983948369032829), ("Batch.calculateEntryHash", 64307238646473242), ("Batch.isTraceNumberODFI", 6050489006599716682), ("Batch.ValidTranCodeForServiceClassCode", 839994114162879679), ("EntryDetail.Validate", 11966679055281504975), ("CalculateCheckDigit", 3833185090430182084), ("roundUp10", 9984175844447061339), ("aba8", 10864741332486296470), ("EntryDetail.CreditOrDebit", 9496558388189731941)] := by decide +kernel
 
 end Ach.Props.C03
